@@ -195,6 +195,37 @@ func runC10(c *core.Ctx) {
 			} else if err := mk(33); err != nil {
 				disagree("lease_set2.LeaseSet2.Validate(key length)", "known-unknown-verdict", code, "applies a length rule to an unknown key type: "+firstLineOf(err.Error()))
 			}
+			// the same rule where the probed key is not the only one (before / between / after
+			// conformant keys), through the validator of a parsed value and through the constructor
+			if known {
+				l, _ := gen.LeaseSet2(r)
+				l.Offline, l.Flags, l.Options = nil, 0, rm.Mapping{}
+				l.Dest, _ = gen.KACOf(r, 7, 4)
+				l.Sig = buf[:64]
+				if len(l.Leases) == 0 {
+					l.Leases = []rm.Lease2{gen.Lease2(r)}
+				}
+				for _, pos := range []int{0, 1, 2} {
+					for _, n := range []int{want, want + 1, want - 1} {
+						if n < 0 || n > len(buf) {
+							continue
+						}
+						keys := []rm.EncKey{{Type: 4, Data: buf[:32]}, {Type: 4, Data: buf[32:64]}}
+						probe := rm.EncKey{Type: uint16(code), Data: buf[:n]}
+						keys = append(keys[:pos], append([]rm.EncKey{probe}, keys[pos:]...)...)
+						l.Keys = keys
+						what := fmt.Sprintf("key %d of 3 with %d bytes (specified: %d)", pos, n, want)
+						if p, _, err := lease_set2.ReadLeaseSet2(l.Encode()); err == nil {
+							if verr := p.Validate(); (verr == nil) != (n == want) {
+								disagree("lease_set2.LeaseSet2.Validate(key length)", "length-differs", code, "validator verdict "+fmt.Sprint(verr == nil)+" for "+what)
+							}
+						}
+						if _, ok, err := lib.BuildLeaseSet2(l, nil); ok && (err == nil) != (n == want) {
+							disagree("lease_set2.NewLeaseSet2(key length)", "length-differs", code, "constructor verdict "+fmt.Sprint(err == nil)+" for "+what)
+						}
+					}
+				}
+			}
 		})
 	})
 	c.Exhaustive("all 65,536 crypto-type codes through 8 size lookups / validators")
